@@ -88,6 +88,17 @@ def judge(c, progs, source):
                 bb = E.canon_obs(*E.split_model(mopt[k]))
                 if a == o_raw[:2] and bb == o_opt[:2]:
                     key = KEY
+            if key is None:
+                # the same question asked of the implementation alone: route every conversion call through a script function (which
+                # Constant_Fold does not recognise) and evaluate optimised; if that behaves like the unoptimised run, the fold of the
+                # conversion call is the whole difference
+                import re
+                rw = "def cv_int(x) { int(x) }; def cv_long(x) { long(x) }; def cv_double(x) { double(x) }; def cv_float(x) { float(x) }; def cv_size_t(x) { size_t(x) }; " + \
+                     re.sub(r"\b(int|long|double|float|size_t)\(", lambda m: "cv_" + m.group(1) + "(", progs[i])
+                if rw.count("cv_") > 5:
+                    r2 = E.run_impl([rw], "opt", ["shape"])[0]
+                    if "tree" in r2 and E.canon_obs(r2["out"], r2["res"]) + (cbcount(r2),) == o_raw:
+                        key = KEY
             c.fail("the optimised and the unoptimised evaluation of one program differ",
                    {"program": progs[i], "unoptimised": o_raw, "optimised": o_opt, "source": source}, finding_key=key)
 
